@@ -1028,6 +1028,8 @@ def _read_fstr(ctx: ReaderContext) -> str | llist.PersistentList:
             raise ctx.eof_error("Unexpected EOF in string")
         if char == "\\":
             char = reader.next_char()
+            if char == "":
+                raise ctx.eof_error("Unexpected EOF in string")
             if (escape_char := _STR_ESCAPE_CHARS.get(char, None)) is not None:
                 s.append(escape_char)
                 continue
